@@ -11,6 +11,9 @@ Carriers and the user-supplied value each must show on the wire:
   ovc   override cookie     c=OVC            requests to operations declaring cookie c
   ovp   override path       id=OVID          requests to operations declaring path parameter id
   prov  auth provider       X-Token: TOK<n>  every request (token value = what the provider returned)
+  key   network header that is the API's declared credential (apiKey security scheme in header X-Key), with the `ignored_auth`
+        check enabled: every request carries it EXCEPT the probes that check deliberately sends without / with invalid
+        credentials (recorded as child cases without a transition); a probe may only lack the credential, nothing else
 """
 from __future__ import annotations
 
@@ -19,9 +22,9 @@ import threading
 import time
 import urllib.parse
 
-CARRIERS = ["hdr", "basic", "ovq", "ovh", "ovc", "ovp", "prov"]
+CARRIERS = ["hdr", "basic", "ovq", "ovh", "ovc", "ovp", "prov", "key"]
 USER = {"hdr": "USERHDR", "basic": "Basic " + base64.b64encode(b"user:pass").decode(), "ovq": "777", "ovh": "OVH", "ovc": "OVC",
-        "ovp": "OVID", "prov": "TOK"}
+        "ovp": "OVID", "prov": "TOK", "key": "KEYVAL"}
 PHASE_IDX = {"API probing": 1, "Examples": 2, "Coverage": 3, "Fuzzing": 4, "Stateful": 5}
 
 
@@ -36,8 +39,11 @@ def build_schema(desc: dict) -> dict:
             {"name": "X-Canary", "in": "header", "required": req, "schema": {"type": "string", "minLength": 1}},
             {"name": "c", "in": "cookie", "required": req, "schema": {"type": "string", "minLength": 1}},
         ]
+    secured = "key" in desc.get("carriers", [])
+    sec = {"security": [{"ApiKey": []}]} if secured else {}
     return {
         "openapi": "3.0.2", "info": {"title": "t", "version": "1"},
+        **({"components": {"securitySchemes": {"ApiKey": {"type": "apiKey", "in": "header", "name": "X-Key"}}}} if secured else {}),
         "paths": {
             "/items": {"post": {
                 "operationId": "createItem",
@@ -47,20 +53,27 @@ def build_schema(desc: dict) -> dict:
                                       "content": {"application/json": {"schema": {"type": "object", "properties": {"id": {"type": "string"}}}}},
                                       "links": {"get": {"operationId": "getItem", "parameters": {"id": "$response.body#/id"}}}}},
             }},
-            "/items/{id}": {"get": {"operationId": "getItem", "parameters": params,
-                                    "responses": {"200": {"description": "ok"}}}},
-            "/plain": {"get": {"operationId": "plain", "responses": {"200": {"description": "ok"}}}},
+            "/items/{id}": {"get": {"operationId": "getItem", "parameters": params, **sec,
+                                    "responses": {"200": {"description": "ok"}, "401": {"description": "no"}}}},
+            "/plain": {"get": {"operationId": "plain", **sec, "responses": {"200": {"description": "ok"}, "401": {"description": "no"}}}},
         },
     }
 
 
 def applies(carrier: str, op: int, declared: str) -> bool:
     """op: 1 = POST /items, 2 = GET /items/{id}, 3 = GET /plain"""
-    if carrier in ("hdr", "basic", "prov"):
+    if carrier in ("hdr", "basic", "prov", "key"):
         return True
     if carrier == "ovp":
         return op == 2
     return op == 2 and declared != "none"
+
+
+def _checks_with_ignored_auth() -> list:
+    from schemathesis.checks import not_a_server_error
+    from schemathesis.specs.openapi.checks import ignored_auth
+
+    return [not_a_server_error, ignored_auth]
 
 
 def run_one(desc: dict) -> dict:
@@ -99,10 +112,14 @@ def run_one(desc: dict) -> dict:
             "hdr": hdrs.get("x-canary", ""), "basic": hdrs.get("authorization", ""),
             "ovq": (query.get("q") or [""])[-1] if len(query.get("q") or []) <= 1 else "MULTI:" + ",".join(query["q"]),
             "ovh": hdrs.get("x-over", ""), "ovc": cookies.get("c", ""), "ovp": seg, "prov": hdrs.get("x-token", ""),
+            "key": hdrs.get("x-key", ""),
         }
         with lock:
             lines.append({"e": "R", "op": op, "ph": phase["n"], "method": r.method,
-                          "vals": [seen[c] for c in CARRIERS], "linked": False})
+                          "vals": [seen[c] for c in CARRIERS], "linked": False, "case": hdrs.get("x-schemathesis-testcaseid", ""),
+                          "probe": False, "parent": ""})
+        if "key" in carriers and op in (2, 3) and seen["key"] != USER["key"]:
+            return json_response(401, {})
         if op == 1:
             with lock:
                 created["n"] += 1
@@ -142,18 +159,25 @@ def run_one(desc: dict) -> dict:
             ov["path_parameters"]["id"] = USER["ovp"]
         if any(ov.values()):
             override = Override(**ov)
+        net_headers = {}
+        if "hdr" in carriers:
+            net_headers["X-Canary"] = USER["hdr"]
+        if "key" in carriers:
+            net_headers["X-Key"] = USER["key"]
         network = NetworkConfig(
-            headers={"X-Canary": USER["hdr"]} if "hdr" in carriers else {},
+            headers=net_headers,
             auth=("user", "pass") if "basic" in carriers else None,
         )
         settings = hypothesis.settings(max_examples=desc.get("max_examples", 4), deadline=None, database=None,
                                        stateful_step_count=3, suppress_health_check=list(hypothesis.HealthCheck))
         config = EngineConfig(
             execution=ExecutionConfig(phases=[PhaseName.EXAMPLES, PhaseName.COVERAGE, PhaseName.FUZZING, PhaseName.STATEFUL_TESTING],
-                                      hypothesis_settings=settings, workers_num=desc.get("workers", 1), seed=desc.get("seed", 1)),
+                                      hypothesis_settings=settings, workers_num=desc.get("workers", 1), seed=desc.get("seed", 1),
+                                      **({"checks": _checks_with_ignored_auth()} if "key" in carriers else {})),
             network=network, override=override,
         )
         errors = []
+        probes: dict = {}
         try:
             for ev in from_schema(schema, config=config).execute():
                 if isinstance(ev, events.PhaseStarted):
@@ -161,9 +185,22 @@ def run_one(desc: dict) -> dict:
                         phase["n"] = PHASE_IDX[ev.phase.name.value]
                 elif isinstance(ev, events.NonFatalError):
                     errors.append(type(ev.value).__name__ + ": " + str(ev.value)[:120])
+                elif isinstance(ev, events.ScenarioFinished):
+                    # probes = cases a check derived from another case (child without a transition), e.g. by ignored_auth
+                    for cid, node in ev.recorder.cases.items():
+                        if node.parent_id is not None and node.transition is None:
+                            probes[cid] = node.parent_id
         finally:
             if cleanup is not None:
                 cleanup()
+    for ln in lines:
+        if ln["case"] in probes:
+            ln["probe"] = True
+            ln["parent"] = probes[ln["case"]]
+    ids: dict = {}
+    for ln in lines:
+        ln["case"] = ids.setdefault(ln["case"], len(ids) + 1)
+        ln["parent"] = ids.setdefault(ln["parent"], len(ids) + 1) if ln["probe"] else 0
     hdr = {
         "carriers": [c in carriers for c in CARRIERS],
         "user": [USER[c] for c in CARRIERS],
